@@ -267,6 +267,35 @@ def _expand_entries(entries: Dict[str, List[Any]], mode: str) -> List[Dict[str, 
         raise ConfigurationError(f"Unknown expansion mode '{mode}'")
 
 
+def _entries_size(entries: Dict[str, List[Any]], mode: str) -> int:
+    """Number of runs :func:`_expand_entries` would produce, without building them.
+
+    Performs the same validation (and raises the same errors) as the expansion.
+    """
+    if not entries:
+        return 0
+
+    ordered_keys = sorted(entries)
+
+    if mode == "by_position":
+        lengths = [len(entries[key]) for key in ordered_keys]
+        if len(set(lengths)) > 1:
+            lengths_by_key = {key: len(entries[key]) for key in ordered_keys}
+            raise ConfigurationError(
+                f"by_position block requires identical list lengths; got {lengths_by_key}"
+            )
+        return lengths[0] if lengths else 0
+
+    elif mode == "combinatorial":
+        size = 1
+        for key in ordered_keys:
+            size *= len(entries[key])
+        return size
+
+    else:
+        raise ConfigurationError(f"Unknown expansion mode '{mode}'")
+
+
 def _load_and_process_source(
     src: RunSource, base_dir: Path
 ) -> Tuple[Dict[str, List[Any]], Dict[str, Any]]:
@@ -365,8 +394,11 @@ def expand_run_space(
     all_block_runs = []
     block_meta = []
     seen_keys: set[str] = set()
+    planned: List[Tuple[Any, Dict[str, List[Any]], Dict[str, List[Any]], Any]] = []
+    block_sizes: List[int] = []
 
-    # Process each block
+    # First pass: load sources, validate and compute block sizes arithmetically so
+    # that the max_runs cap is enforced before any run is materialised.
     for index, block in enumerate(spec.blocks):
         context_entries = {key: list(values) for key, values in block.context.items()}
         source_entries: Dict[str, List[Any]] = {}
@@ -383,6 +415,62 @@ def expand_run_space(
                     f"Duplicate context key(s) within block (context vs source): {sorted(duplicate_keys)!r}"
                 )
 
+        source_mode = block.source.mode if block.source else block.mode
+        if block.mode == "by_position":
+            sizes = []
+            if context_entries:
+                sizes.append(_entries_size(context_entries, "by_position"))
+            if source_entries:
+                sizes.append(_entries_size(source_entries, source_mode))
+            if sizes and len(set(sizes)) != 1:
+                raise ConfigurationError(
+                    f"by_position block requires equal run counts between context and source; got {sizes}"
+                )
+            block_size = sizes[0] if sizes else 0
+        elif block.mode == "combinatorial":
+            block_size = (
+                _entries_size(context_entries, "combinatorial")
+                if context_entries
+                else 1
+            ) * (_entries_size(source_entries, source_mode) if source_entries else 1)
+        else:
+            raise ConfigurationError(f"Unknown block mode '{block.mode}'")
+
+        # Check for duplicate keys across blocks
+        current_keys = set(context_entries) | set(source_entries)
+        duplicate_keys = seen_keys.intersection(current_keys)
+        if duplicate_keys:
+            raise ConfigurationError(
+                f"Duplicate context key(s) across blocks: {sorted(duplicate_keys)!r} (at index {index})"
+            )
+        seen_keys.update(current_keys)
+
+        planned.append((block, context_entries, source_entries, source_meta))
+        block_sizes.append(block_size)
+
+    # Enforce the cap on the planned total, before materialising anything
+    if not block_sizes:
+        planned_total = 1
+    elif spec.combine == "combinatorial":
+        planned_total = 1
+        for block_size in block_sizes:
+            planned_total *= block_size
+    elif spec.combine == "by_position":
+        if len(set(block_sizes)) != 1:
+            raise ConfigurationError(
+                f"combine=by_position requires equal block sizes; got {block_sizes}"
+            )
+        planned_total = block_sizes[0]
+    else:
+        raise ConfigurationError(f"Unknown run_space combine mode '{spec.combine}'")
+    if planned_total > spec.max_runs:
+        raise RunSpaceMaxRunsExceededError(
+            actual_runs=planned_total,
+            max_runs=spec.max_runs,
+        )
+
+    # Second pass: materialise the runs of each block
+    for block, context_entries, source_entries, source_meta in planned:
         # Combine context and source based on block mode
         if block.mode == "by_position":
             context_runs = (
@@ -434,15 +522,7 @@ def expand_run_space(
         else:
             raise ConfigurationError(f"Unknown block mode '{block.mode}'")
 
-        # Check for duplicate keys across blocks
         current_keys = set(context_entries) | set(source_entries)
-        duplicate_keys = seen_keys.intersection(current_keys)
-        if duplicate_keys:
-            raise ConfigurationError(
-                f"Duplicate context key(s) across blocks: {sorted(duplicate_keys)!r} (at index {index})"
-            )
-        seen_keys.update(current_keys)
-
         all_block_runs.append(block_runs)
 
         # Build block metadata
